@@ -448,6 +448,20 @@ func c11Scenarios() []*dscenario {
 				l = append(l, fx)
 			}
 			if t == "ASA" || t == "IOS" {
+				// the login user lands in user mode; ASA: no enable
+				// password is configured, 'enable' offers to set one
+				um := baseScenario(t, f)
+				um.name += "/user-mode"
+				um.needEnable = true
+				l = append(l, um)
+				if t == "ASA" {
+					eu := baseScenario(t, f)
+					eu.name += "/enable-password-unset"
+					eu.needEnable, eu.enableUnset = true, true
+					l = append(l, eu)
+				}
+			}
+			if t == "ASA" || t == "IOS" {
 				ui := baseScenario(t, f)
 				ui.name += "/unknown-interface"
 				if t == "ASA" {
@@ -479,7 +493,7 @@ func init() {
 	}, 170*time.Second, 40*time.Minute)
 	registerSharded("C11", c11Worker, func(tier string) core.Meta {
 		return core.Meta{ID: "C11", Level: "fault_enumeration",
-			Rule: "compare dialogues: 5 device types x {drc -C -L dir, drc -C without log directory, do-approve compare} x interlock variants {ok, missing marker, wrong hostname, unknown interface (ASA/IOS), foreign non-Netspoc objects (NSX)}, all with non-empty differences; baseline plus every single deviation at every point (thorough: all ordered pairs); oracle: the transcript contains no config-changing, save/commit or reload-control line (ASA 'configure terminal / terminal width 511 / end' before 'write term' is reported as finding F-C11-asa-terminal-width), the device model state and the foreign objects are identical before and after; non-trivial = runs with a deviation",
+			Rule: "compare dialogues: 5 device types x {drc -C -L dir, drc -C without log directory, do-approve compare} x interlock variants {ok, missing marker, wrong hostname, unknown interface (ASA/IOS), login ends in user mode (ASA/IOS; ASA also with no enable password configured, where 'enable' starts the dialogue that sets one), foreign non-Netspoc objects (NSX)}, all with non-empty differences; baseline plus every single deviation at every point (thorough: all ordered pairs); oracle: the transcript contains no config-changing, save/commit or reload-control line (ASA 'configure terminal / terminal width 511 / end' before 'write term' is reported as finding F-C11-asa-terminal-width), the device model state and the foreign objects are identical before and after; non-trivial = runs with a deviation",
 			Assumptions: []string{"transcript classification is done by the simulator from device semantics (DESIGN appendix C)"},
 			Bounds:      map[string]any{"quick": "single deviations", "thorough": "pairs"},
 		}
